@@ -290,6 +290,12 @@ func c02Run(c *core.Ctx, scn c02Scn) {
 		c.Violation("c02:grouping:"+d.Kind, fmt.Sprintf("units %s: %s", seq, d), wit())
 		return
 	}
+	// a change must not turn up in another delivery later: what the handler was
+	// given is re-read after the stream ended
+	if why := retainedChanged(res.Delivered); why != "" {
+		c.Violation("c02:delivered-transaction-changed-later", fmt.Sprintf("units %s: %s", seq, why), wit())
+		return
+	}
 	// rollback: one delivery with zero events whose labels advance
 	for i := range exp {
 		d := res.Delivered[i]
